@@ -28,10 +28,11 @@ import (
 )
 
 type replay struct {
-	Cfg    sw.SysOpts `json:"cfg"`
-	Trace  []string   `json:"trace"`
-	Xproto *xpCase    `json:"xproto,omitempty"`
-	Xpull  *xpullCase `json:"xpull,omitempty"`
+	Cfg    sw.SysOpts  `json:"cfg"`
+	Trace  []string    `json:"trace"`
+	Xproto *xpCase     `json:"xproto,omitempty"`
+	Xpull  *xpullCase  `json:"xpull,omitempty"`
+	HlsSub *hlsSubCase `json:"hlssub,omitempty"`
 }
 
 type sys struct {
@@ -547,6 +548,16 @@ func main() {
 			}
 			r.Finish()
 		}
+		if rp.HlsSub != nil {
+			vs, err := hlsSubRun(*rp.HlsSub)
+			if err != nil {
+				r.Violation("infra/hlssub", err.Error(), rp)
+			}
+			for _, v := range vs {
+				r.Violation(v[:strings.IndexByte(v, ':')], v, rp)
+			}
+			r.Finish()
+		}
 		if rp.Xproto != nil {
 			vs, _, err := xpRun(*rp.Xproto)
 			if err != nil {
@@ -611,6 +622,7 @@ func main() {
 	if os.Getenv("C16_ONLY") == "" || os.Getenv("C16_ONLY") == "xproto" {
 		n := xpPhase(r)
 		n += xpullPhase(r)
+		hlsSubPhase(r)
 		r.Eval(n)
 		r.AddTraces(int64(n))
 	}
